@@ -741,6 +741,20 @@ func main() {
 			}
 		}
 	}
+	// early items: all queries with <= 1 deviation everywhere and the 2-deviation queries on
+	// the first (full-grammar) layout; they run before the history family so that a time cap
+	// under heavy machine load still leaves every pair of clauses covered once
+	var early, late []citem
+	for _, it := range items {
+		d := deviations(queries[it.qi])
+		if d <= 1 || (d == 2 && it.e == 0) {
+			early = append(early, it)
+		} else {
+			late = append(late, it)
+		}
+	}
+	nEarly := len(early)
+	items = append(early, late...)
 	nItems := len(items)
 	itemAt := func(n int) (item, entry) {
 		e := entries[items[n].e]
@@ -798,94 +812,98 @@ func main() {
 		return r.TimeUp()
 	}
 	// ---- history family: SELECT S after 1-2 other statements on the SAME router ----
-	var hists [][]int
-	for a := range rig.Prefixes {
-		hists = append(hists, []int{a})
-	}
-	for a := range rig.Prefixes {
-		for b := range rig.Prefixes {
-			hists = append(hists, []int{a, b})
-		}
-	}
-	hContents := [][]int{{0, 1, 2, 3, 4, 5, 6, 7}, {0, 2, 5, 9}}
-	// quick: per rule type the layout with the most sub-tables (a damaged sub-table list
-	// needs at least three entries to show); thorough: every layout with >= 2 tables
-	var hLayouts []rig.Layout
-	best := map[string]int{}
-	for _, l := range layoutOrder {
-		if l.Tables() < 2 {
-			continue
-		}
-		if i, ok := best[l.Rule]; ok && r.Quick() {
-			if l.Tables() > hLayouts[i].Tables() {
-				hLayouts[i] = l
-			}
-			continue
-		}
-		best[l.Rule] = len(hLayouts)
-		hLayouts = append(hLayouts, l)
-	}
 	histNontrivial := map[string]bool{}
-	nHist := len(hists) * len(hLayouts)
-	hDone := enum.Parallel(nHist, stop, func(n int) {
-		h, l := hists[n/len(hLayouts)], hLayouts[n%len(hLayouts)]
-		w := pool.Get().(*worker)
-		defer pool.Put(w)
-		var nEval, nCmp, nDiv, nRej, nNT int64
-		for ti := range hTargets {
-			for hc, content := range hContents {
-				if r.Quick() && hc > 0 && len(h) > 1 {
-					continue // quick: two-statement prefixes meet the all-keys content only
-				}
-				c := Case{Layout: l.Name(), Hist: h, HTarget: ti, Content: content}
-				o := runHistory(w, c)
-				switch o.status {
-				case "prefix_diverged":
-					nDiv++
-					noteErr("history: prefix diverged: " + rig.Prefixes[h[len(h)-1]].Name)
-					continue
-				case "invalid":
-					continue
-				case "rejected_build", "rejected_exec":
-					nEval++
-					nRej++
-					noteErr("history: "+errClass(o.errText), l.Name(), o.sql, o.errText)
-					continue
-				}
-				nEval++
-				nCmp++
-				if o.merged >= 2 {
-					nNT++
-					classMu.Lock()
-					histNontrivial[fmt.Sprint(h, ti, hc)] = true
-					classMu.Unlock()
-				}
-				if o.status == "violation" {
-					confirmHistory(r, w, c)
-				} else if o.merged >= 2 && len(h) == 2 {
-					sampleMu.Lock()
-					if !sampled["history"] {
-						sampled["history"] = true
-						c.SQL, c.Rows, c.Shards = o.sql, describe(l, content), o.shards
-						r.Sample(c)
-					}
-					sampleMu.Unlock()
-				}
+	historyPhase := func() {
+		var hists [][]int
+		for a := range rig.Prefixes {
+			hists = append(hists, []int{a})
+		}
+		for a := range rig.Prefixes {
+			for b := range rig.Prefixes {
+				hists = append(hists, []int{a, b})
 			}
 		}
-		r.Add("evaluations", nEval)
-		r.Add("compared", nCmp)
-		r.Add("history_cases", nEval)
-		r.Add("history_prefix_diverged", nDiv)
-		r.Add("history_rejected", nRej)
-		r.Add("history_merged_two_or_more_shard_results", nNT)
-	})
-	if hDone < nHist {
-		r.Capped(fmt.Sprintf("history family: %d of %d (history, layout) items", hDone, nHist))
-	}
-	r.Set("history_family", fmt.Sprintf("%d prefixes (rig.Prefixes) -> %d histories of length 1-2 x %d SELECTs under test x %d contents on %d layouts, fresh router per case", len(rig.Prefixes), len(hists), len(hTargets), len(hContents), len(hLayouts)))
+		hContents := [][]int{{0, 1, 2, 3, 4, 5, 6, 7}, {0, 2, 5, 9}}
+		// quick: per rule type the layout with the most sub-tables (a damaged sub-table list
+		// needs at least three entries to show); thorough: every layout with >= 2 tables
+		var hLayouts []rig.Layout
+		best := map[string]int{}
+		for _, l := range layoutOrder {
+			if l.Tables() < 2 {
+				continue
+			}
+			if i, ok := best[l.Rule]; ok && r.Quick() {
+				if l.Tables() > hLayouts[i].Tables() {
+					hLayouts[i] = l
+				}
+				continue
+			}
+			best[l.Rule] = len(hLayouts)
+			hLayouts = append(hLayouts, l)
+		}
+		nHist := len(hists) * len(hLayouts)
+		hDone := enum.Parallel(nHist, stop, func(n int) {
+			h, l := hists[n/len(hLayouts)], hLayouts[n%len(hLayouts)]
+			w := pool.Get().(*worker)
+			defer pool.Put(w)
+			var nEval, nCmp, nDiv, nRej, nNT int64
+			for ti := range hTargets {
+				for hc, content := range hContents {
+					if r.Quick() && hc > 0 && len(h) > 1 {
+						continue // quick: two-statement prefixes meet the all-keys content only
+					}
+					c := Case{Layout: l.Name(), Hist: h, HTarget: ti, Content: content}
+					o := runHistory(w, c)
+					switch o.status {
+					case "prefix_diverged":
+						nDiv++
+						noteErr("history: prefix diverged: " + rig.Prefixes[h[len(h)-1]].Name)
+						continue
+					case "invalid":
+						continue
+					case "rejected_build", "rejected_exec":
+						nEval++
+						nRej++
+						noteErr("history: "+errClass(o.errText), l.Name(), o.sql, o.errText)
+						continue
+					}
+					nEval++
+					nCmp++
+					if o.merged >= 2 {
+						nNT++
+						classMu.Lock()
+						histNontrivial[fmt.Sprint(h, ti, hc)] = true
+						classMu.Unlock()
+					}
+					if o.status == "violation" {
+						confirmHistory(r, w, c)
+					} else if o.merged >= 2 && len(h) == 2 {
+						sampleMu.Lock()
+						if !sampled["history"] {
+							sampled["history"] = true
+							c.SQL, c.Rows, c.Shards = o.sql, describe(l, content), o.shards
+							r.Sample(c)
+						}
+						sampleMu.Unlock()
+					}
+				}
+			}
+			r.Add("evaluations", nEval)
+			r.Add("compared", nCmp)
+			r.Add("history_cases", nEval)
+			r.Add("history_prefix_diverged", nDiv)
+			r.Add("history_rejected", nRej)
+			r.Add("history_merged_two_or_more_shard_results", nNT)
+		})
+		if hDone < nHist {
+			r.Capped(fmt.Sprintf("history family: %d of %d (history, layout) items", hDone, nHist))
+		}
+		r.Set("history_family", fmt.Sprintf("%d prefixes (rig.Prefixes) -> %d histories of length 1-2 x %d SELECTs under test x %d contents on %d layouts, fresh router per case", len(rig.Prefixes), len(hists), len(hTargets), len(hContents), len(hLayouts)))
 
-	done := enum.Parallel(nItems, stop, func(n int) {
+	}
+
+	done := 0
+	mainItem := func(n int) {
 		it, ent := itemAt(n)
 		w := pool.Get().(*worker)
 		defer pool.Put(w)
@@ -959,7 +977,13 @@ func main() {
 		if nCmp > 0 {
 			r.Distinct("queries_compared", strconv.Itoa(it.qi))
 		}
-	})
+	}
+	// order: early main items, the history family, the rest of the main family
+	done = enum.Parallel(nEarly, stop, mainItem)
+	historyPhase()
+	if done == nEarly {
+		done += enum.Parallel(nItems-nEarly, stop, func(n int) { mainItem(n + nEarly) })
+	}
 	if done < nItems {
 		r.Capped(fmt.Sprintf("%d of %d (layout, query) items in fewest-deviations-first order", done, nItems))
 	}
